@@ -765,11 +765,11 @@ Qed.
 Lemma log_entries_err l i max e :
   log_entries l i max = Ok (SErr e) -> e = Compacted \/ e = LogTemporarilyUnavailable.
 Proof.
-  unfold log_entries. intros H. case_if H; [discriminate|].
+  unfold log_entries. intros H. case_if H; [discriminate|]. case_if H; [discriminate|].
   unfold slice in H. inv_bind H. destruct x as [e0|].
   - inversion H; subst. unfold must_check_outofbounds in Hx.
     case_if Hx; [discriminate|]. inv_bind Hx. case_if Hx; [inversion Hx; auto|].
-    case_if Hx; discriminate.
+    case_if Hx; [discriminate|]. case_if Hx; discriminate.
   - case_if H; [discriminate|]. inv_bind H. destruct x as [early|ents].
     + inversion H; subst; clear H. case_if Hx0; [|discriminate].
       inv_bind Hx0. destruct x as [ents|e1].
@@ -1083,6 +1083,8 @@ Section Compaction.
       destruct (hi <? lo); [reflexivity|].
       destruct (u_maybe_first_index (unst l)) as [fi|]; [reflexivity|]. cbn [bind].
       destruct (lo <? ci) eqn:E1; [lia|]. destruct (lo <? first_of m) eqn:E2; [lia|].
+      destruct (last_index l + 1 <? ci) eqn:E3; [lia|].
+      destruct (last_index l + 1 <? first_of m) eqn:E4; [lia|].
       cbn [orb].
       replace (ci + (last_index l + 1 - ci)) with (last_index l + 1) by lia.
       replace (first_of m + (last_index l + 1 - first_of m)) with (last_index l + 1) by lia.
@@ -1104,7 +1106,8 @@ Section Compaction.
     ci <= i -> ci <= last_index l + 1 -> log_entries l' i max = log_entries l i max.
   Proof.
     intros Hi Hla. unfold log_entries. rewrite cpt_log_last_index.
-    destruct (last_index l <? i); [reflexivity|]. apply cpt_log_slice; assumption.
+    destruct (last_index l <? i); [reflexivity|].
+    destruct (last_index l =? u64_max); [reflexivity|]. apply cpt_log_slice; assumption.
   Qed.
 End Compaction.
 
